@@ -238,9 +238,16 @@ impl<F: Float, L> ParamGuard for SvmParams<F, L> {
                 )));
             }
         }
-        if let Some((nu, _)) = self.0.nu {
+        if let Some((nu, c)) = self.0.nu {
             if nu <= F::zero() || nu > F::one() {
                 return Err(SvmError::InvalidNu(nu.to_f32().unwrap()));
+            }
+            // the second component is the C value of nu-SVR (nu itself for classification)
+            if c <= F::zero() {
+                return Err(SvmError::InvalidC((
+                    c.to_f32().unwrap(),
+                    c.to_f32().unwrap(),
+                )));
             }
         }
 
